@@ -179,8 +179,25 @@ def overflow_case(r, ch):
     else:
         s.feed(wire.headers(1, s.hblock(REQ)))
     top = 2**31 - 1
+    target = 1
+    kind = ch.weighted([(3, 'open'), (2, 'promised'), (1, 'half-closed')])
+    if kind == 'promised' and not client:
+        # a stream the server has promised but not yet answered (reserved (local)) has a send window too
+        o = s.call('push_stream', 1, 2, REQ)
+        if not o.ok:
+            r.violate('C12:harness:push-failed', o.brief())
+            return
+        target = 2
+        r.labels.add('overflow-on-promised-stream')
+    elif kind == 'half-closed':
+        # the peer has ended its side; we can still send, so the window still counts
+        if client:
+            s.feed(wire.headers(1, s.hblock([(b':status', b'200')]), end_stream=True))
+        else:
+            s.feed(wire.data(1, b'', end_stream=True))
+        r.labels.add('overflow-on-half-closed-remote-stream')
     inc = ch.boundary([1, top - 65535, top - 65535 - 1, 2**30], 1, top - 65535)
-    o = s.feed(wire.window_update(1, inc))
+    o = s.feed(wire.window_update(target, inc))
     if not o.ok:
         r.violate('C12:overflow:legal-window-update-rejected', '%d %s' % (inc, o.brief()))
         return
@@ -204,7 +221,7 @@ def overflow_case(r, ch):
         if not o.ok:
             r.violate('C12:overflow:legal-change-rejected:%s' % o.exc_name, 'inc=%d iws=%d' % (inc, v))
         else:
-            w = s.call('local_flow_control_window', 1)
+            w = s.call('local_flow_control_window', target)
             if w.ok and w.value != min(new_win, 65535):
                 r.violate('C12:overflow:window-wrong', 'inc=%d iws=%d got %r' % (inc, v, w.value))
     if abs(new_win - top) <= 2:
